@@ -332,9 +332,86 @@ def run(ctx: Ctx, driver: Driver):
         ctx.notes.append(f"put(target, b'') on {host}: {last()[0]!r} (outside the theorem: not reachable through the pairing API)") if host == HOSTS[0] and not secure else None
         await conn.close()
 
+    async def scenario_subscriptions(host):
+        """subscribe / unsubscribe with id lists in any order over several accessories: every id asked for is put on the
+        wire exactly once, in well-formed requests, and nothing else is"""
+        rig = Rig(loop, host, False)
+        rig.responder = responder
+        conn = await rig.connect()
+        layout = {1: [10, 11, 12, 13], 2: [20, 21, 22, 23], 3: [30, 31]}
+        allids = [(a, i) for a, iids in layout.items() for i in iids]
+        trials = [[(1, 10), (2, 20), (1, 11)], [(2, 20), (1, 10), (2, 21), (1, 11), (3, 30)], [(3, 31), (1, 13), (3, 30)]]
+        trials += [rng.sample(allids, rng.randint(1, 8)) for _ in range(ctx.budget(10, 80))]
+        for ids in trials:
+            p = mk_pairing(conn, layout)
+            for ev, fn in ((True, p.subscribe), (False, p.unsubscribe)):
+                n0 = len(rig.requests)
+                await fn(list(ids))
+                seen = []
+                for req, nc in rig.requests[n0:]:
+                    body = req.split(b"\r\n\r\n", 1)[1]
+                    d = json.loads(body)
+                    ok = ws_outside_strings(body) is False and all(set(c) == {"aid", "iid", "ev"} and c["ev"] is ev for c in d["characteristics"])
+                    if not ok:
+                        ctx.violation("request/subscribe-payload", f"subscribe payload {body!r}", {"stream": "payload", "ev": ev})
+                    seen += [(c["aid"], c["iid"]) for c in d["characteristics"]]
+                    check("subscribe" if ev else "unsubscribe", host, False, req, nc, "PUT", "/characteristics", "application/hap+json", body, to_model=False)
+                ctx.evaluations += 1
+                ctx.nontrivial.add(("sub-ids", tuple(a for a, _ in ids), ev))
+                if sorted(seen) != sorted(set(ids)):
+                    missing = sorted(set(ids) - set(seen))
+                    ctx.violation("request/subscribe-ids", f"{'subscribe' if ev else 'unsubscribe'}({ids}) put {seen} on the wire in {len(rig.requests) - n0} request(s)" + (f"; never written: {missing}" if missing else ""),
+                                  {"stream": "payload", "ids": ids, "ev": ev})
+        await conn.close()
+
+    async def scenario_reconnect(host_a, host_b, secure):
+        """one connection object, two addresses: after it re-connects to the other address every request names THAT host"""
+        rig = Rig(loop, host_a, secure)
+        rig.responder = responder
+        with rig.net.patched():
+            rig.conn = conn = ipc.HomeKitConnection(None, [host_a, host_b], 80)
+            for idx, host in ((0, host_a), (1, host_b), (0, host_a)):
+                rig.net.connect_outcomes.append(("ok", idx))
+                rig.rctr = rig.wctr = 0
+                rig.ebuf = rig.pbuf = b""
+                rig.ncalls_seen = 0
+                await conn._connect_once()
+                if secure:
+                    t = conn.transport
+                    pr = ipc.SecureHomeKitProtocol(conn, rig.a2c, rig.c2a)
+                    pr.connection_made(t)
+                    t.set_protocol(pr)
+                    conn.protocol = pr
+                    conn.is_secure = True
+                peer = conn.transport.host  # the address the simulated network really connected
+                if peer != host:
+                    ctx.notes.append(f"reconnect scenario: expected peer {host}, simnet connected {peer}")
+                for target, body in (("/accessories", None), ("/characteristics", b'{"characteristics":[]}')):
+                    if body is None:
+                        await conn.get(target)
+                        check("get-after-reconnect", peer, secure, *rig.requests[-1], "GET", target, None, None)
+                    else:
+                        await conn.put(target, body)
+                        check("put-after-reconnect", peer, secure, *rig.requests[-1], "PUT", target, "application/hap+json", body)
+                # drop this connection without waking the background connector (this scenario connects by hand)
+                conn.closing = True
+                conn.transport.close()
+                await asyncio.sleep(0)
+                conn.transport = None
+                conn.protocol = None
+                conn.is_secure = False
+                conn.closing = False
+                conn.closed = False
+        await conn.close()
+
     for host in HOSTS:
         for secure in (False, True):
             loop.run_until_complete(scenario(host, secure))
+    loop.run_until_complete(scenario_subscriptions(HOSTS[0]))
+    for host_a in HOSTS:
+        for host_b in HOSTS:
+            if host_a != host_b:
+                loop.run_until_complete(scenario_reconnect(host_a, host_b, secure=(HOSTS.index(host_a) + HOSTS.index(host_b)) % 2 == 1))
     ctx.sample(cases[1])
     ctx.sample(cases[-1])
     compare_with_model(ctx, "request", cases, outs, lines, driver)
